@@ -87,6 +87,37 @@ Lemma swap_remove_length {A} (l : list A) i a :
   nth_error l i = Some a -> length l = S (length (swap_remove i l)).
 Proof. intro H. apply (Permutation_length (swap_remove_perm l i a H)). Qed.
 
+(* ---------- metres rounding and the SCAN member ---------- *)
+
+Lemma round_mm_spec d : (0 <= d)%Z ->
+  (0 <= round_mm d /\ 1000 * round_mm d <= d < 1000 * round_mm d + 1000)%Z.
+Proof. unfold round_mm. intro H. split; [apply Z.div_pos; lia|]. pose proof (Z.div_mod d 1000). pose proof (Z.mod_pos_bound d 1000). lia. Qed.
+
+Lemma round_mm_mono a b : (a <= b)%Z -> (round_mm a <= round_mm b)%Z.
+Proof. unfold round_mm. intro H. apply Z.div_le_mono; lia. Qed.
+
+Lemma scan_ids_spec ids mid scan s i :
+  In (s, i) (scan_ids ids mid scan) <->
+  (s = true /\ i = mid /\ In mid ids) \/
+  (s = false /\ In i ids /\ i <> mid /\ glob_match (mid ++ scan) i = WTrue).
+Proof.
+  unfold scan_ids. rewrite in_app_iff, in_map_iff. split.
+  - intros [H|(j & E & Hj)].
+    + left. destruct (existsb (bytes_eqb mid) ids) eqn:Ex; [|destruct H].
+      destruct H as [E|[]]. inversion E; subst. split; [reflexivity|]. split; [reflexivity|].
+      apply existsb_exists in Ex. destruct Ex as (x & Hx & Hm). apply bytes_eqb_eq in Hm. now subst.
+    + right. inversion E; subst. apply filter_In in Hj. destruct Hj as [Hin Hb].
+      apply andb_true_iff in Hb. destruct Hb as [Hne Hg]. split; [reflexivity|]. split; [assumption|]. split.
+      * intro Eq. subst. rewrite bytes_eqb_refl in Hne. discriminate.
+      * destruct (glob_match (mid ++ scan) i); congruence.
+  - intros [(-> & -> & Hin)|(-> & Hin & Hne & Hg)].
+    + left. assert (existsb (bytes_eqb mid) ids = true) as ->; [|now left].
+      apply existsb_exists. exists mid. split; [assumption|apply bytes_eqb_refl].
+    + right. exists i. split; [reflexivity|]. apply filter_In. split; [assumption|].
+      rewrite Hg. rewrite andb_true_r. apply negb_true_iff.
+      destruct (bytes_eqb i mid) eqn:E; [|reflexivity]. apply bytes_eqb_eq in E. contradiction.
+Qed.
+
 Section RoamProofs.
   Variable G : Type.
   Variable dist : G -> G -> Z.
